@@ -327,6 +327,10 @@ func (c *fmtCmd) fmtTxtarFile(filename string) error {
 		}
 		archive.Files[i].Data = []byte(out)
 	}
+	if c.Check && string(txtar.Format(archive)) != string(b) {
+		// txtar.Parse completes a missing final newline: fmt -w would rewrite this archive
+		return fmt.Errorf("%s: %w", filename, errNotFormatted)
+	}
 	if c.Write {
 		return writeAtomically(txtar.Format(archive), filename)
 	}
